@@ -20,9 +20,12 @@
 (*                repair: failure delivered, phase SKIP "nothing to test") *)
 (*   FixSetup     check the stop flag before announcing a scenario         *)
 (*   FixWorst     fold scenario statuses into the phase status             *)
+(*   AliveCheck   (TRUE = the code) the consumer polls the thread's        *)
+(*                liveness after a queue timeout (refuted by Termination   *)
+(*                when FALSE)                                              *)
 (***************************************************************************)
 EXTENDS EventProtocol, Sequences, TLC
-CONSTANTS StepCount, MaxScen, MaxSuites, MaxFail, FixDrain, FixCtrlC, FixDrainExec, FixSetup, FixWorst, AllowStop, AllowCtrlC, AllowError
+CONSTANTS StepCount, MaxScen, MaxSuites, MaxFail, FixDrain, FixCtrlC, FixDrainExec, FixSetup, FixWorst, AllowStop, AllowCtrlC, AllowError, AliveCheck
 PH == 5
 Ev(k, su, sc, st) == [k |-> k, ph |-> PH, su |-> su, sc |-> sc, st |-> st]
 NoEv == Ev("", 0, 0, "")
@@ -140,7 +143,7 @@ C_Yield == /\ cpc = "yield" /\ Emit(cur) /\ cur' = NoEv /\ cpc' = "get"
 C_Timeout == /\ cpc = "get" /\ q = <<>> /\ cpc' = "alive"
              /\ NoEmit /\ TUnch /\ GUnch /\ UNCHANGED <<q, cur, status, executed, stop, fails, limit>>
 C_Alive == /\ cpc = "alive"
-           /\ cpc' = IF tpc = "dead" /\ (~FixDrain \/ q = <<>>) THEN "join" ELSE "get"
+           /\ cpc' = IF AliveCheck /\ tpc = "dead" /\ (~FixDrain \/ q = <<>>) THEN "join" ELSE "get"
            /\ NoEmit /\ TUnch /\ GUnch /\ UNCHANGED <<q, cur, status, executed, stop, fails, limit>>
 (* KeyboardInterrupt arrives while the consumer waits in get() *)
 C_CtrlC == /\ AllowCtrlC /\ cpc = "get" /\ ~stopped
@@ -165,6 +168,9 @@ Env_Stop == /\ AllowStop /\ ~stopped /\ cpc \notin {"start", "end"} /\ stop' = T
 Next == \/ P_Start \/ T_SuiteStart \/ T_Setup \/ T_EndScenario \/ T_StepCheck \/ T_Step \/ T_Teardown \/ T_RunEnd \/ T_SuiteFinish \/ T_Exit
         \/ C_Get \/ C_Yield \/ C_Timeout \/ C_Alive \/ C_CtrlC \/ C_Join \/ C_Drain \/ C_PhaseFinished \/ C_EngineFinished \/ Env_Stop
 Spec == Init /\ [][Next]_vars
+MainNext == P_Start \/ C_Get \/ C_Yield \/ C_Timeout \/ C_Alive \/ C_Join \/ C_Drain \/ C_PhaseFinished \/ C_EngineFinished
+ThreadNext == T_SuiteStart \/ T_Setup \/ T_EndScenario \/ T_StepCheck \/ T_Step \/ T_Teardown \/ T_RunEnd \/ T_SuiteFinish \/ T_Exit
+FairSpec == Spec /\ WF_vars(MainNext) /\ WF_vars(ThreadNext)
 
 Done == cpc = "end"
 RunCut == stopped \/ limit \/ mon.intr
@@ -178,4 +184,5 @@ AtMostOneRequestAfterStop == reqAfterStop <= 1
 AtMostOneScenarioAfterStop == scsAfterStop <= 1
 StepsBounded == stepn <= StepCount
 FailureLimit == MaxFail # 0 => mon.nbad <= MaxFail
+Termination == <>Done
 =============================================================================
